@@ -38,43 +38,47 @@ theorem bundle_equiv (d : Dev) (p : Path) (ss : List Simple)
   simp only [Option.getD_none, execMembers_eq_runSingly]
   cases (runSingly d ss).2.mapM encodeReply <;> rfl
 
-/-- one-by-one execution keeps the device well-formed and every reply producible -/
-theorem execSimple_preserves_wf_tag (d : Dev) (hwf : d.WF) (s : Simple)
-    (hs : match s with
-      | .readTag .. | .readFrag .. | .writeTag .. | .writeFrag .. => True
-      | _ => False) :
+/-- one-by-one execution keeps the device well-formed and every reply producible (every service) -/
+theorem execSimple_preserves_wf (d : Dev) (hwf : d.WF) (s : Simple) :
     (execSimple d s).1.WF ∧ ∃ bs, encodeReply (execSimple d s).2 = some bs := by
   unfold execSimple execSimpleAt
-  cases s <;> simp only at hs ⊢
-  all_goals exact ⟨execTag_preserves_wf _ hwf _ _ _ _ _ _ _ _ _, execTag_reply_producible _ hwf _ _ _ _ _ _ _ _ _⟩
+  cases s <;> simp only <;>
+    first
+    | exact ⟨execTag_preserves_wf _ hwf _ _ _ _ _ _ _ _ _, execTag_reply_producible _ hwf _ _ _ _ _ _ _ _ _⟩
+    | exact ⟨execAttr_preserves_wf _ hwf _ _, execAttr_reply_producible _ _ _⟩
+
+/-- (the form used by Props/C06) -/
+theorem execSimple_preserves_wf_tag (d : Dev) (hwf : d.WF) (s : Simple)
+    (_hs : match s with
+      | .readTag .. | .readFrag .. | .writeTag .. | .writeFrag .. => True
+      | _ => False) :
+    (execSimple d s).1.WF ∧ ∃ bs, encodeReply (execSimple d s).2 = some bs := execSimple_preserves_wf d hwf s
 
 def isTagService : Simple → Bool
   | .readTag .. | .readFrag .. | .writeTag .. | .writeFrag .. => true
   | _ => false
 
-theorem runSingly_producible (d : Dev) (hwf : d.WF) (ss : List Simple) (hs : ∀ s ∈ ss, isTagService s = true) :
+theorem runSingly_producible (d : Dev) (hwf : d.WF) (ss : List Simple) :
     (runSingly d ss).1.WF ∧ ∃ ms, (runSingly d ss).2.mapM encodeReply = some ms ∧ ms.length = ss.length := by
   induction ss generalizing d with
   | nil => exact ⟨hwf, [], rfl, rfl⟩
   | cons s rest ih =>
-    have hs1 : isTagService s = true := hs s (by simp)
-    have h1 := execSimple_preserves_wf_tag d hwf s (by cases s <;> simp_all [isTagService])
-    obtain ⟨hwf1, b, hb⟩ := h1
-    obtain ⟨hwf2, ms, hms, hlen⟩ := ih (execSimple d s).1 hwf1 (fun x hx => hs x (by simp [hx]))
+    obtain ⟨hwf1, b, hb⟩ := execSimple_preserves_wf d hwf s
+    obtain ⟨hwf2, ms, hms, hlen⟩ := ih (execSimple d s).1 hwf1
     refine ⟨hwf2, b :: ms, ?_, by simp [hlen]⟩
     simp only [runSingly, List.mapM_cons, hb, hms]
     rfl
 
 /-- **A failing request inside the bundle affects neither its neighbours nor the bundle's own framing:**
-whatever the members' statuses, the bundle reply has status 0 and carries one reply per member
-(Read/Write Tag [Fragmented] members on a well-formed device). -/
+whatever the members and their statuses (reads, writes, fragmented and attribute services, valid or not),
+on a well-formed device the bundle reply has status 0 and carries exactly one reply per member. -/
 theorem bundle_framing (d : Dev) (hwf : d.WF) (p : Path) (ss : List Simple)
-    (hp : resolve d.symbols .no p = some (router.1, router.2, none))
-    (hs : ∀ s ∈ ss, isTagService s = true) :
+    (hp : resolve d.symbols .no p = some (router.1, router.2, none)) :
     ∃ ms, (execMultiple d p ss).2 = some { svc := svcMulti, status := 0, raw := encodeMultiple ms }
-      ∧ ms.length = ss.length := by
-  obtain ⟨_, ms, hms, hlen⟩ := runSingly_producible d hwf ss hs
-  exact ⟨ms, by rw [bundle_equiv d p ss hp]; simp [hms], hlen⟩
+      ∧ ms.length = ss.length ∧ (execMultiple d p ss).1.WF := by
+  obtain ⟨hw, ms, hms, hlen⟩ := runSingly_producible d hwf ss
+  refine ⟨ms, by rw [bundle_equiv d p ss hp]; simp [hms], hlen, ?_⟩
+  rw [bundle_equiv d p ss hp]; exact hw
 
 /-! ### the offset table -/
 
